@@ -135,11 +135,14 @@ pub struct GenCfg {
   pub same_session: bool,
   /// Some reads use checkers whose stamp type is zero-sized (`RK::ZVol`, `RK::ZMost`).
   pub zst: bool,
+  /// Long histories (150..300 steps) over small programs: state that accumulates on one instance (counters, epochs,
+  /// periodic clean-ups, reused ids).
+  pub marathon: bool,
 }
 
 impl Default for GenCfg {
   fn default() -> Self {
-    GenCfg { class: Class::W, bottom_up: 0, td_between: false, all_roots_td: false, crash: false, check_errors: false, rw_errors: false, exact_only_pct: 40, sim_fams_only: true, replays: 0, big: false, wrappers: false, files: false, proc_replay: false, in_session: false, xl: false, same_session: false, zst: false }
+    GenCfg { class: Class::W, bottom_up: 0, td_between: false, all_roots_td: false, crash: false, check_errors: false, rw_errors: false, exact_only_pct: 40, sim_fams_only: true, replays: 0, big: false, wrappers: false, files: false, proc_replay: false, in_session: false, xl: false, same_session: false, zst: false, marathon: false }
   }
 }
 
@@ -314,7 +317,8 @@ pub fn gen_keys(rng: &mut Rng, ntasks: usize, nres: usize, sim_only: bool, wrapp
 }
 
 pub fn gen_program_w(rng: &mut Rng, cfg: &GenCfg) -> Program {
-  let (ntasks, nres) = if cfg.xl { (rng.range(8, 14) as usize, if cfg.big { rng.range(3, 6) } else { rng.range(4, 10) } as usize) } else if cfg.big { (rng.range(5, 8) as usize, rng.range(2, 4) as usize) } else { (rng.range(2, 8) as usize, rng.range(2, 8) as usize) };
+  // (replay configurations: more resources, so that many resource nodes are without dependents at times)
+  let (ntasks, nres) = if cfg.marathon { if cfg.replays > 0 { (rng.range(4, 7) as usize, rng.range(6, 9) as usize) } else { (rng.range(3, 6) as usize, rng.range(3, 6) as usize) } } else if cfg.xl { (rng.range(8, 14) as usize, if cfg.big { rng.range(3, 6) } else { rng.range(4, 10) } as usize) } else if cfg.big { (rng.range(5, 8) as usize, rng.range(2, 4) as usize) } else { (rng.range(2, 8) as usize, rng.range(2, 8) as usize) };
   gen_program_w_sized(rng, cfg, ntasks, nres)
 }
 
@@ -400,7 +404,7 @@ pub fn gen_history(rng: &mut Rng, prog: &Program, cfg: &GenCfg) -> (Vec<(usize, 
   let mut init = vec![];
   let init_pct = rng.range(40, 90);
   for r in 0..nres { if rng.chance(init_pct) { init.push((r, rng.below(NVALS as u64) as Val)); } }
-  let nsteps = if cfg.xl { rng.range(6, 16) as usize } else if cfg.big { rng.range(4, 12) as usize } else { rng.range(2, 10) as usize };
+  let nsteps = if cfg.marathon { rng.range(150, 300) as usize } else if cfg.xl { rng.range(6, 16) as usize } else if cfg.big { rng.range(4, 12) as usize } else { rng.range(2, 10) as usize };
   let mut steps = vec![];
   let mut faults = BTreeMap::new();
   let root_pct = rng.range(20, 70);
@@ -673,9 +677,9 @@ pub fn gen_program_vx(rng: &mut Rng, cfg: &GenCfg, want: u64) -> Program {
 }
 
 fn gen_program_v_inj(rng: &mut Rng, cfg: &GenCfg, inject: Option<u64>) -> Program {
-  let (ntasks, nres) = if cfg.xl { (rng.range(6, 10) as usize, rng.range(3, 7) as usize) } else if cfg.big { (rng.range(4, 7) as usize, rng.range(2, 4) as usize) } else { (rng.range(2, 6) as usize, rng.range(2, 5) as usize) };
+  let (ntasks, nres) = if cfg.marathon { (rng.range(3, 5) as usize, rng.range(2, 4) as usize) } else if cfg.xl { (rng.range(6, 10) as usize, rng.range(3, 7) as usize) } else if cfg.big { (rng.range(4, 7) as usize, rng.range(2, 4) as usize) } else { (rng.range(2, 6) as usize, rng.range(2, 5) as usize) };
   let ncases = rng.range(2, 3) as usize;
-  let mut c2 = GenCfg { exact_only_pct: cfg.exact_only_pct, big: cfg.big, xl: cfg.xl, ..GenCfg::default() };
+  let mut c2 = GenCfg { exact_only_pct: cfg.exact_only_pct, big: cfg.big, xl: cfg.xl, marathon: cfg.marathon, ..GenCfg::default() };
   c2.sim_fams_only = cfg.sim_fams_only;
   let base = gen_program_w_sized(rng, &c2, ntasks, nres);
   let mut cases: Vec<Vec<Vec<Op>>> = vec![vec![]; ntasks]; // per task: per case: ops
